@@ -245,6 +245,7 @@ def _check_pty(case, col, watch):
     ever_dead = False
     feats = set()
     n_life = 0
+    raised_any = False        # an exception raised by the object (its traceback may keep the object in a cycle)
     try:
         if disp in ('ignore', 'stopped+ignore', 'ignore+term'):
             time.sleep(0.05)          # let sh install the trap and exec cat
@@ -319,6 +320,7 @@ def _check_pty(case, col, watch):
                             else:
                                 child.close(force=force)
                         except ExceptionPexpect as e:
+                            raised_any = True
                             raised = repr(e)        # not the exception: its traceback would keep the spawn object alive
                         if raised is not None:
                             if force or not stubborn:
@@ -348,21 +350,39 @@ def _check_pty(case, col, watch):
                         try:
                             child.expect(EOF, timeout=0.05)
                         except TIMEOUT:
-                            pass
+                            raised_any = True
                     elif op == 'send':
                         child.send(b'x\n')
                     elif op == 'read':
                         try:
                             child.read_nonblocking(100, 0.05)
                         except (TIMEOUT, EOF):
-                            pass
+                            raised_any = True
                     elif op == 'del':
                         n_life += 1
-                        del child
-                        gc.collect()
-                        dropped = True
-                        released = True
-                        if not proc.wait_state((None,), 5):
+                        # dropping the last reference must be enough: nothing may keep the object alive until the
+                        # cyclic collector happens to run (a long-running program would leak one descriptor and one
+                        # process per dropped child until then)
+                        gc_was = gc.isenabled()
+                        if raised_any or released:
+                            # an earlier exception's traceback legitimately references the object's frames: only the
+                            # collector can free that; the immediate-reclaim demand is for exception-free histories
+                            gc.collect()
+                        gc.disable()
+                        try:
+                            del child
+                            dropped = True
+                            released = True
+                            gone = proc.wait_state((None,), 3)
+                        finally:
+                            if gc_was:
+                                gc.enable()
+                        if not gone:
+                            gc.collect()
+                            if proc.wait_state((None,), 5):
+                                raise Violation('leak-until-gc', '%s: after the object was dropped the child (and its descriptor) '
+                                                'stayed until the cyclic garbage collector ran: the object is kept alive by a '
+                                                'reference cycle' % where)
                             raise Violation('leak-after-del', '%s: the child process still exists (state %s) after the object was dropped'
                                             % (where, proc.state()))
                         break
@@ -370,8 +390,7 @@ def _check_pty(case, col, watch):
                         if released and decoys is None:
                             decoys = Decoys()
             except (ExceptionPexpect, OSError, ValueError) as e:
-                if isinstance(e, (EOF, TIMEOUT)):
-                    pass
+                raised_any = True
                 # an error is the required outcome for I/O on a released descriptor, and acceptable elsewhere
             # passive invariants
             if watch.stray:
